@@ -69,7 +69,7 @@ def finish(run, level, level_text, rule, explanation=""):
               coverage=dict(
                   obligations=proof.get("obligations", 0), discharged=proof.get("discharged", 0),
                   checker_cmd=proof.get("checker_cmd", ""), trusted_base=TRUSTED_BASE,
-                  theorems=proof.get("theorems", []), axioms=proof.get("axioms", {}),
+                  theorems=proof.get("theorems", []), axioms=proof.get("axioms", {}), coqchk=proof.get("coqchk"),
                   evaluations=run.evaluations, distinct_nontrivial=len(run.distinct), rule=rule,
                   samples=run.samples[:3], traces_validated_against_impl=run.traces_validated,
                   configurations=run.configs[:40], configurations_count=len(run.configs),
@@ -119,14 +119,15 @@ def analyse(run, spec, c, bins, script, source):
     for variant, b in bins.items():
         rc, out, err = corr.run_impl(b, script, wrapper=spec.wrapper, timeout=30)
         validated += 1
+        if rc != 0:
+            what = "the call does not return: callbacks keep coming (runaway guard of the harness)" if rc == 97 else "timeout" if rc == -9 else "exit status %s" % rc
+            found_v.append(dict(reason="implementation run failed (%s): %s" % (what, err[-1500:]), script=script,
+                                cfg=cfgmod.name(c), variant=variant, source=source, impl=out[-3000:], model=mout[-3000:]))
+            continue
         rej = None
         for mid in spec.monitor_ids:
             rej = monitors.run_monitors(mid, out, c)
             if rej: break
-        if rc != 0:
-            found_v.append(dict(reason="implementation run failed (exit status %s): %s" % (rc, err[-1500:]), script=script,
-                                cfg=cfgmod.name(c), variant=variant, source=source, impl=out[-3000:], model=mout[-3000:]))
-            continue
         if rej:
             found_v.append(dict(reason="property monitor rejects the implementation's trace: " + rej[1], script=script,
                                 cfg=cfgmod.name(c), variant=variant, source=source, index=rej[0], monitor=True))
@@ -184,7 +185,7 @@ def run_machine(run, spec):
     # configurations depend on (property, tier) only, so that the set-up command can pre-build them; scripts depend on the seed
     cfgs = spec.cfgs(tier, random.Random(int(hashlib.sha256((spec.pid + tier).encode()).hexdigest()[:8], 16)))
     # every other small configuration is also built against the template overloads of the API (changeTo<T>(), isActive<T>(), plan.change<A, B>(), ...)
-    cfgs = cfgs + [dict(c, tapi=1) for k, c in enumerate(cfgs) if c["n"] <= 5 and k % 2 == 0]
+    cfgs = cfgs + [dict(c, tapi=1) for k, c in enumerate(cfgs) if c["n"] <= 5 and (k % 2 == 0 or (c["plans"] and c["payload"]))]
     corpus = corpus_scripts(spec.pid)
     corpus_cfgs = []
     for path, s in corpus:
